@@ -311,13 +311,14 @@ def run(chk):
         for mm in re.finditer(r"INFO:\s+\S+\s+[0-9.]+\s+'(.)'\s+\(\d+ events\)", e):
             enabled.add(ord(mm.group(1)))
         # spec (independent of the Coq model)
-        exp_fail = False
+        has_bad = False
+        has_unspec = False
         exp_en = set()
         for (mid, name, ver) in models:
             hv = tuple(int(x) for x in ver.split("."))
             for req in c["threads"]:
                 if req is None:
-                    exp_fail = True
+                    has_bad = True
                     continue
                 v = req.get(name)
                 if not isinstance(v, str):
@@ -327,19 +328,20 @@ def run(chk):
                     if spec_compatible(val, hv):
                         exp_en.add(mid)
                     else:
-                        exp_fail = True
+                        has_bad = True
                 elif kind == "none":
-                    exp_fail = True
+                    has_bad = True
                 else:
-                    exp_fail = None  # unspecified by the property
+                    has_unspec = True  # unspecified by the property
             if c["all"]:
                 exp_en.add(mid)
+        exp_fail = True if has_bad else (None if has_unspec else False)
         impl_obs = "none" if probe_failed else "en " + " ".join(str(x) for x in sorted(enabled))
         if m is not None and m != impl_obs and not (probe_failed and rcode != 0 and m == "none"):
             corr_broken.append(("M", ml, impl_obs, m))
         chk.count("emu:" + ("probe-fails" if exp_fail else "probe-ok" if exp_fail is False else "unspecified"))
-        if exp_fail is True and rcode == 0:
-            chk.violation("emu-accepts:%s" % ml[:60], "ovniemu exits 0 although a required model version is incompatible/unparsable",
+        if exp_fail is True and not probe_failed:
+            chk.violation("emu-accepts:%s" % ml[:60], "ovniemu does not refuse at model probing although some stream requires an incompatible/unparsable model version",
                           {"case": c, "stderr": e[:1500]})
         if exp_fail is False:
             if probe_failed:
